@@ -29,7 +29,7 @@ def gen_case(rng, i):
     base = [gen.rrow(rng, vs, nmax=min(3, nv), dyadic=dy, posbias=0.8) for _ in range(rng.randint(1, 4))]
     ctx = [gen.rrow(rng, vs, nmax=2, dyadic=dy, posbias=0.8) for _ in range(rng.randint(0, 2))]
     S = list(base)
-    shape = i % 9
+    shape = i % 10
     pool = base + ctx
     if shape == 0:
         S.append(rng.choice(base))                      # exact duplicate
@@ -63,6 +63,14 @@ def gen_case(rng, i):
         S.append(({v: -a for v, a in r[0].items()}, -r[1] - rng.choice([1, 2, 2.0**-7])))
     rng.shuffle(S)
     S = S[:6]
+    if shape == 9:
+        # coefficients of very different magnitude (within 1 .. 3*10^5): an opposite pair over (i, o) and a row over (i, j).  The LP that asks
+        # whether the third row is redundant is bounded by that row itself, yet the solver's presolve often calls it unbounded
+        a, b, B = rng.choice([1, 1.5, 2, 3]), rng.choice([1e5, 3e5, 2e5]), rng.choice([1, 10, 300100, 1000, 5])
+        c_, d_, C_ = rng.choice([1e5, 1e4, 5e4]), rng.choice([250, 1, 40, 1000, 0.5]), rng.choice([99960, 10, 1, 1000])
+        vi, vo, vj = vs[0], vs[1], (vs[2] if nv > 2 else "q")
+        trap = [({vi: a, vo: -b}, B), ({vi: -a, vo: b}, B), ({vi: -c_, vj: d_} if rng.random() < 0.5 else {vi: -c_, vj: d_}, C_)]
+        return {"S": trap, "ctx": []}
     if shape == 8:
         # a row of the list stands word for word in the context and is listed FIRST, so that leaving it out changes the
         # order in which the remaining rows introduce their variables (the next row mentions that variable last)
@@ -147,7 +155,7 @@ def main(tier, replay=None):
         PROP, tier, gen_cases(tier), run_case,
         "(list, context) with <= 6 rows over <= 5 variables and planted redundancy: duplicates, scalings, positive combinations "
         "(slack 0, 2^-10, 1), rows implied only through the context, same left side with different bounds in any position, "
-        "near twins (integer rows scaled by 10^5, one coefficient off by one), contradictions, rows without variables (vacuous or contradictory) in any position, a row standing word for word in the context and listed first, an elimination on the same list before the call, a second call on a list that prints identically (one coefficient larger by 2^-14 of itself); through TermList.simplify with/without context and through contract "
+        "near twins (integer rows scaled by 10^5, one coefficient off by one), contradictions, rows without variables (vacuous or contradictory) in any position, a row standing word for word in the context and listed first, an elimination on the same list before the call, rows of very different magnitude on which the solver's presolve misreports the redundancy LP, a second call on a list that prints identically (one coefficient larger by 2^-14 of itself); through TermList.simplify with/without context and through contract "
         "construction; non-trivial = simplification returned and dropped at least one row, or raised on an infeasible system",
         owner=lambda ev: PROP, replay=replay,
         extra=lambda rep, rd: __import__("lpalgo").conformance(rep, rd, PROP, {"reduce"}, 200 if tier == "quick" else 4000, seed()),
